@@ -927,7 +927,18 @@ func (f *FnEnc) checkAts(ins ssa.Instruction, callee string) {
 			f.checkAtHit = map[*CheckAt]int{}
 		}
 		f.checkAtHit[ca]++
-		ctx := f.specCtx(f.st, f.blk, nil)
+		// arg0, arg1, ...: the arguments of the call being checked (for a static method call arg0
+		// is the receiver)
+		extra := map[string]binding{}
+		if call, ok := ins.(*ssa.Call); ok {
+			for i, a := range call.Call.Args {
+				func() {
+					defer func() { recover() }()
+					extra[fmt.Sprintf("arg%d", i)] = binding{f.val(a), a.Type()}
+				}()
+			}
+		}
+		ctx := f.specCtx(f.st, f.blk, extra)
 		ctx.atReturn = true
 		g := f.evalClauseSafe(ctx, ca.Cond)
 		o := f.addObl("check-at", ca.Label+"@"+f.srcAt(ins.Pos()), g, ins.Pos(), ca.Props, ca.Cond.Src)
@@ -1286,7 +1297,14 @@ func (f *FnEnc) checkGate(g *Gate) {
 	}
 	// 1. the error return
 	var B *ssa.BasicBlock
-	var success []*ssa.Return
+	// return sites: the Return instructions, or - when the results live in a result cell (functions
+	// with defers) - the stores into that cell
+	type retSite struct {
+		val ssa.Value
+		blk *ssa.BasicBlock
+		pos token.Pos
+	}
+	var sites []retSite
 	for _, b := range f.fn.Blocks {
 		ret, ok := b.Instrs[len(b.Instrs)-1].(*ssa.Return)
 		if !ok || len(ret.Results) == 0 {
@@ -1296,8 +1314,27 @@ func (f *FnEnc) checkGate(g *Gate) {
 		if !isErrorType(last.Type()) {
 			continue
 		}
+		if ld, ok := last.(*ssa.UnOp); ok && ld.Op == token.MUL {
+			if cell, ok := ld.X.(*ssa.Alloc); ok && cell.Referrers() != nil {
+				for _, r := range *cell.Referrers() {
+					if st, ok := r.(*ssa.Store); ok && st.Addr == cell {
+						sites = append(sites, retSite{st.Val, st.Block(), st.Pos()})
+					}
+				}
+				continue
+			}
+		}
+		sites = append(sites, retSite{last, ret.Block(), ret.Pos()})
+	}
+	var success []retSite
+	for _, rs := range sites {
+		last := rs.val
+		if os.Getenv("VCHECK_DEBUG") == "gate" {
+			m, _, ok := errorMessageOf(last)
+			fmt.Fprintf(os.Stderr, "gate scan: return %s of type %T (%v) -> %q %v\n", last, last, last.Type(), m, ok)
+		}
 		if isNilConst(last) {
-			success = append(success, ret)
+			success = append(success, rs)
 			continue
 		}
 		if msg, blk, ok := errorMessageOf(last); ok && strings.HasPrefix(msg, g.Msg) {
@@ -1401,12 +1438,12 @@ func (f *FnEnc) checkGate(g *Gate) {
 		if g.Before != "" {
 			break
 		}
-		if !D.Dominates(ret.Block()) {
-			if !cfgReaches(D, ret.Block()) {
+		if !D.Dominates(ret.blk) {
+			if !cfgReaches(D, ret.blk) {
 				continue // a successful return on another path (e.g. the early return for empty blocks)
 			}
-			o := &Obligation{Name: f.oblName(name, "guards-every-success"), Kind: "gate", Fn: fnDisplayName(f.fn), Reach: tTrue, Goal: tFalse, Pos: ret.Pos(), Props: g.Props,
-				Verdict: "sat", Model: "a successful return (" + e.posStr(ret.Pos()) + ") is reachable without passing the check that guards error \"" + g.Msg + "\"", Src: g.Cond.Src}
+			o := &Obligation{Name: f.oblName(name, "guards-every-success"), Kind: "gate", Fn: fnDisplayName(f.fn), Reach: tTrue, Goal: tFalse, Pos: ret.pos, Props: g.Props,
+				Verdict: "sat", Model: "a successful return (" + e.posStr(ret.pos) + ") is reachable without passing the check that guards error \"" + g.Msg + "\"", Src: g.Cond.Src}
 			if len(o.Props) == 0 {
 				o.Props = e.curProps
 			}
